@@ -170,7 +170,10 @@ fn slow_h<const M: usize>(start_with_chunk: bool, size: usize, align: usize) {
         set_finger(&b, if kani::any() { 0 } else { 16 });
     }
     unsafe { REFUSE_NONDET = true; }
-    let lim: Option<usize> = if kani::any() { Some(kani::any()) } else { None };
+    let lims = [None, Some(0usize), Some(100), Some(447), Some(448), Some(512), Some(5000), Some(usize::MAX)];
+    let li: usize = kani::any();
+    kani::assume(li < 8);
+    let lim = lims[li];
     b.set_allocation_limit(lim);
     let l = Layout::from_size_align(size, align).unwrap();
     let held0 = b.allocated_bytes();
